@@ -40,6 +40,8 @@ def run(ctx):
     ctx.rule(rule_carrier_flow, 'C06.R1')
     ctx.rule(rule_no_replacement, 'C06.R2')
     ctx.rule(rule_pad_tables, 'C06.R2')
+    from .c05 import rule_pad_width
+    ctx.rule(rule_pad_width, 'C06.R2')
     from .c18 import rule_config_keys
     ctx.rule(rule_config_keys, 'C06.R3')
     ctx.rule(rule_sibling_forwarding, 'C06.R4')
